@@ -1,22 +1,16 @@
 (* C06 Crash recovery. Statements only; the scan-prefix theorems (Blob/ScanProofs.v) are added when proved. *)
-Require Import Pearl.Base.Prelude Pearl.Base.LE Pearl.Generated.Consts Pearl.Format.Record Pearl.Blob.Scan.
+Require Import Pearl.Base.Prelude Pearl.Base.LE Pearl.Generated.Consts Pearl.Format.Record Pearl.Blob.Scan Pearl.Blob.ScanBasics.
 
 (* classification of open failures: only a blob-version mismatch makes init fail; every deserialisation
    (unexpected EOF) or validation error sends the blob to quarantine *)
 Theorem C06_only_version_fails_init :
   forall r : res (list header), dispose r = DInitFails <-> r = RFail EBlobVersion.
-Proof.
-  intros r. destruct r as [hs|e]; cbn [dispose]; [split; discriminate|].
-  destruct e; cbn [dispose]; split; intros H; try discriminate; try reflexivity.
-Qed.
+Proof. exact only_version_fails_init. Qed.
 
-(* files shorter than the blob header, or with a cut first record header, are quarantined, for every content *)
+(* files shorter than the blob header are quarantined, for every content *)
 Theorem C06_short_file_quarantined :
   forall (b : bytes) (K : N) (validate : bool), (length b < 20)%nat -> blob_open_scan b K validate = RFail EBincode.
-Proof.
-  intros b K v H. unfold blob_open_scan, blob_header_check.
-  destruct (Nat.ltb_spec (length b) 20) as [_|H']; [reflexivity|lia].
-Qed.
+Proof. exact short_file_quarantined. Qed.
 
 Print Assumptions C06_only_version_fails_init.
 Print Assumptions C06_short_file_quarantined.
